@@ -40,6 +40,14 @@ func (e *Engine) newVC(name string, props []string) *VC {
 
 // verifyFunc generates the obligations of one function under contract.
 func (e *Engine) verifyFunc(name string) (*VC, error) {
+	return e.verifyFuncMode(name, "")
+}
+
+// verifyFuncMode: with kf == "" the function is verified outside every
+// known-finding carve-out; with kf == "KF-x" it is verified *inside* that
+// carve-out (the obligations that fail there are the known finding itself and
+// are matched against KNOWN_FINDINGS.txt by their name prefix).
+func (e *Engine) verifyFuncMode(name, kf string) (*VC, error) {
 	fn := e.funcs[name]
 	con := e.contracts[name]
 	if fn == nil {
@@ -49,6 +57,9 @@ func (e *Engine) verifyFunc(name string) (*VC, error) {
 		con = &Contract{Func: name, LoopInv: map[int][]*Clause{}, Flags: map[string]bool{}}
 	}
 	vc := e.newVC(name, con.Props)
+	if kf != "" {
+		vc.fnName = name + "[" + kf + "]"
+	}
 	vc.verifyingBody = true
 	vc.absQuant = con.Flags["absolute-quantifiers"]
 	if fn.Blocks == nil {
@@ -105,6 +116,21 @@ func (e *Engine) verifyFunc(name string) (*VC, error) {
 		vc.assume(g)
 		reqs = append(reqs, g)
 	}
+	for _, c := range con.Excepts {
+		g, err := env.evalBool(c.E)
+		if err != nil {
+			vc.oblige(st, "spec-error", "except/"+c.Name, "false", c.Pos, err.Error())
+			continue
+		}
+		if c.Name == kf {
+			vc.assume(g)
+			reqs = append(reqs, g)
+		} else {
+			vc.assume(not(g))
+			reqs = append(reqs, not(g))
+			vc.assumed["carve-out "+c.Name+" (known finding): "+c.Src] = true
+		}
+	}
 	for _, c := range con.Assumes {
 		g, err := env.evalBool(c.E)
 		if err != nil {
@@ -120,6 +146,51 @@ func (e *Engine) verifyFunc(name string) (*VC, error) {
 		o := vc.oblige(st, "cover", "requires-sat", "false", con.Pos, "preconditions are satisfiable")
 		o.ExpectSat = true
 	}
+	perReturn := con.Flags["post-per-return"]
+	if perReturn {
+		// postconditions are checked at every return site (simpler queries than
+		// the merged exit state when a function has dozens of returns)
+		fr.perReturn = func(rst *State, rs []*Val, k int, retPos token.Pos) {
+			vars := specVarsFor(fn, params, rs)
+			for i, fv := range fn.FreeVars {
+				vars[fv.Name()] = binds[i]
+			}
+			env := &Env{vc: vc, st: rst, old: fr.entry, vars: vars}
+			// loop state ($idx#N) of the enclosing loops is visible to witness terms
+			wenv := vc.loopEnvAt(fr, rst)
+			for k, v := range vars {
+				wenv.vars[k] = v
+			}
+			for _, c := range con.Ensures {
+				ce := c.E
+				if wit := con.Witness[c.Name]; wit != nil {
+					usable := true
+					for _, w := range wit {
+						wenv.err = nil
+						wenv.eval(w)
+						if wenv.err != nil {
+							usable = false
+						}
+					}
+					wenv.err = nil
+					if usable {
+						ce = instantiateWitness(ce, wit)
+						env = wenv
+					} else {
+						env = &Env{vc: vc, st: rst, old: fr.entry, vars: vars}
+					}
+				}
+				g, err := env.evalBool(ce)
+				if err != nil {
+					vc.oblige(rst, "spec-error", fmt.Sprintf("ensures/%s@ret%d", c.Name, k), "false", c.Pos, err.Error())
+					continue
+				}
+				o := vc.oblige(rst, "post", fmt.Sprintf("%s@ret%d", c.Name, k), g, c.Pos, c.Src)
+				o.Except = c.Except
+				o.Src = fmt.Sprintf("[return at %s] %s", vc.pos(retPos).String(), c.Src)
+			}
+		}
+	}
 	exit, results := vc.execBody(fr, st)
 	if exit == nil {
 		if len(con.Ensures) > 0 {
@@ -133,6 +204,9 @@ func (e *Engine) verifyFunc(name string) (*VC, error) {
 	}
 	penv := &Env{vc: vc, st: exit, old: fr.entry, vars: vars}
 	for _, c := range con.Ensures {
+		if perReturn {
+			break
+		}
 		g, err := penv.evalBool(c.E)
 		if err != nil {
 			vc.oblige(exit, "spec-error", "ensures/"+c.Name, "false", c.Pos, err.Error())
